@@ -172,6 +172,11 @@ func (iter *DBIterator) Seek(key []byte) {
 	// We use MaxUint64 as version to seek to the latest version of the key.
 	// We default to CFDefault as DBIterator currently doesn't support specifying CF.
 	internalKey := kv.InternalKey(kv.CFDefault, key, nonTxnMaxVersion)
+	if !iter.isAsc {
+		// Reverse seek lands on the last internal key <= target: version 0 sorts
+		// after every version of key, so all of them are included.
+		internalKey = kv.InternalKey(kv.CFDefault, key, 0)
+	}
 	iter.iitr.Seek(internalKey)
 	iter.populate()
 }
